@@ -80,7 +80,17 @@ def _live(mode, rq, rt):
     return f
 
 
+def _space(tier):
+    if tier == "quick":
+        return [{"engine": "space", "shards": 6, "args": {"runs": 24}},
+                {"engine": "crash", "args": {"mode": "partition", "workloads": 8, "cuts": 100}}]
+    return [{"engine": "space", "shards": 12, "args": {"runs": 480, "steps": 220}},
+            {"engine": "crash", "shards": 4, "args": {"mode": "partition", "workloads": 120, "cuts": 300, "threads": 24}}]
+
+
 PLAN = {
+    "C05": {"level": "exploration", "engines": _space, "min_nontrivial": 100,
+            "assumptions": ["the invariant is asserted only at quiescent points (flush acknowledged, caller threads paused); transient reservations mid-flight are legitimate and not asserted", "OutOfSpace caused by fragmentation on a >90 % full device is not a violation; the drain epilogue checks that an emptied device accepts the original fill again"] + CRASH_ASSUMPTIONS[:2]},
     "C09": {"level": "fault_enumeration", "engines": _fault, "min_nontrivial": 100,
             "assumptions": CRASH_ASSUMPTIONS + ["faults are injected on the synchronous I/O path (hook H2 disables io_uring) with one flush worker so the I/O calls of a workload can be numbered; each plan runs in its own process because the store keeps a process-wide registry of poisoned files", "read failures are outside the property"]},
     "C18": {"level": "exploration", "engines": _live("live", 48, 600), "min_nontrivial": 20,
